@@ -254,7 +254,7 @@ Definition hold_step (c : cfg) (st : hstate) (o : op) (b : ob) : hstate * bool :
                      end in
           let v' := if is_stale_float v then
                       match lookup_type (a_types (ha_types ha)) sid with
-                      | Some THist => VH 0 | Some TFHist => VFH 0 | _ => v end
+                      | Some THist | Some TCHist => VH 0 | Some TFHist | Some TCFHist => VFH 0 | _ => v end
                     else v in
           (* decision table *)
           let table :=
